@@ -413,6 +413,8 @@ var plainHdr = []byte{0x01, 0x01, 0x02, 0x03}
 // containerLevels derives each container's fixed prefix from the library's own
 // encoding of the container around a probe option (the baseline only has to be
 // *some* byte string; its validity is judged by the reference decoder).
+var levelProblems sync.Map // container name -> hex of its encoding
+
 func containerLevels() map[string]level {
 	out := map[string]level{}
 	probe := &dhcpv6.OptStatusCode{StatusCode: 0, StatusMessage: "p"}
@@ -424,7 +426,11 @@ func containerLevels() map[string]level {
 		}
 		wb := w.ToBytes()
 		if !bytes.HasSuffix(wb, ptlv) {
-			panic("container " + ct.Name + " does not end with its nested option")
+			// the library's encoding of a container around an option does not end with that option: reported by Run as a
+			// violation of the wire layout; the bytes are used as the container's fixed part so that the enumeration can go on
+			levelProblems.Store(ct.Name, fmt.Sprintf("%x", wb))
+			out[ct.Name] = level{ct.Name, ct.Code, append([]byte{}, wb...)}
+			continue
 		}
 		out[ct.Name] = level{ct.Name, ct.Code, append([]byte{}, wb[:len(wb)-len(ptlv)]...)}
 	}
@@ -648,6 +654,13 @@ func Run(c *fw.Ctx) {
 	// (b) every corpus instance, every context, every perturbation
 	ins := corpus6.Instances()
 	ctxs := contexts()
+	levelProblems.Range(func(k, v any) bool {
+		c.Report(fw.Violation{Fingerprint: "dhcpv6.ToBytes|container-encoding-does-not-end-with-its-nested-option|" + k.(string), Order: ord, Scope: "b:container baselines",
+			Input:    "container " + k.(string) + " built around a status-code option (code 13, \"p\")",
+			Observed: "encoding " + v.(string), Expected: "the container's fixed part followed by the nested option 000d0003000070",
+			Explain:  "nested options are the tail of their container's value (RFC 8415 §21); the check derives each container's fixed part from this encoding"})
+		return true
+	})
 	type job struct {
 		x    *context
 		in   corpus6.Instance
